@@ -127,6 +127,18 @@ protected:
 		setg(mBuf, mBuf, mBuf + n);
 		return traits_type::to_int_type(*gptr());
 	}
+	// putback beyond the small get area (RapidJSON's IStreamWrapper::Peek4 puts back up to 4 characters): step the window back
+	int_type pbackfail(int_type ch) override
+	{
+		const size_t cur = (gptr() == egptr() && egptr() == eback()) ? mPos : mBase + static_cast<size_t>(gptr() - eback());
+		if (cur == 0) return traits_type::eof();
+		if (ch != traits_type::eof() && traits_type::to_char_type(ch) != mData[cur - 1]) return traits_type::eof();
+		mBuf[0] = mData[cur - 1];
+		mBase = cur - 1;
+		mPos = cur;
+		setg(mBuf, mBuf, mBuf + 1);
+		return traits_type::not_eof(ch);
+	}
 	pos_type seekoff(off_type off, std::ios_base::seekdir dir, std::ios_base::openmode which) override
 	{
 		off_type cur = static_cast<off_type>(mBase + (gptr() - eback()));
